@@ -30,12 +30,13 @@ import time
 HERE = os.path.dirname(os.path.abspath(__file__))
 VERIF = os.path.dirname(HERE)
 WORK = os.path.join(VERIF, ".work")
-REPO = "/repo"
+REPO = os.path.abspath(os.environ.get("VERIF_REPO", "/repo"))
+ALT = "VERIF_REPO" in os.environ
 sys.path.insert(0, HERE)
 import mir  # noqa: E402
 from mir import Executor, Unsupported, bv  # noqa: E402
 
-MIRDIR = os.path.join(WORK, "mir")
+MIRDIR = os.path.join(WORK, "mir" if "VERIF_REPO" not in os.environ else "mir_alt_" + re.sub(r"\W+", "_", os.environ["VERIF_REPO"]))
 ENV = dict(os.environ, CARGO_NET_OFFLINE="true")
 
 SOLVERS = [("z3", ["/usr/bin/z3", "-in", "-T:120"]), ("cvc5", ["/usr/bin/cvc5", "--lang", "smt2", "--tlimit=120000", "--produce-models"])]
@@ -76,11 +77,13 @@ def dump_mir():
     return out, time.time() - t0
 
 
-def solve(decls, asserts, want_model=True):
+def solve(decls, asserts, want_model=True, extra=None):
     """-> ('sat'|'unsat'|'unknown', model dict). Both solvers must agree."""
     script = "(set-logic ALL)\n(set-option :produce-models true)\n"
     for name in decls:
         script += f"(declare-const {name} (_ BitVec 64))\n"
+    if extra:
+        script += extra + "\n"
     for a in asserts:
         script += f"(assert {a})\n"
     script += "(check-sat)\n"
@@ -129,12 +132,12 @@ class Finding:
         self.cls, self.query, self.what, self.model, self.replayable = cls, query, what, model, replayable
 
 
-def query_with_small_first(decls, base, neg, small):
+def query_with_small_first(decls, base, neg, small, extra=None):
     """try to find a small (replayable) counterexample first, then an unrestricted one"""
-    v, m = solve(decls, base + [neg] + small)
+    v, m = solve(decls, base + [neg] + small, extra=extra)
     if v == "sat":
         return v, m, True
-    v2, m2 = solve(decls, base + [neg])
+    v2, m2 = solve(decls, base + [neg], extra=extra)
     return v2, m2, False
 
 
@@ -254,6 +257,9 @@ LAYOUT = [
 ]
 
 
+STRUCT_FIELDS = {}  # class -> (field index of `shape`, of `strides`), read off the constructor's aggregate
+
+
 def check_layout(fns, findings, notes):
     for cls, nrx, prx, size, striped, getters, insts in [(a, b, c, d, e, f, g) for (a, b, c, d, e, f, gs) in LAYOUT for g in gs]:
         fn = mir.find_function(fns, nrx, prx)
@@ -279,6 +285,8 @@ def check_layout(fns, findings, notes):
             ret = p.outcome[1]
             if ret is None or ret.kind != "agg" or "shape" not in ret.fields or "strides" not in ret.fields:
                 raise Unsupported(f"{cls}: constructor does not return shape/strides")
+            names = list(ret.fields.keys())
+            STRUCT_FIELDS[cls] = (names.index("shape"), names.index("strides"))
             sh, st = ret.fields["shape"], ret.fields["strides"]
             if sh.kind != "tuple" or st.kind != "tuple":
                 raise Unsupported(f"{cls}: shape/strides are not arrays")
@@ -307,6 +315,126 @@ def check_layout(fns, findings, notes):
             elif v != "unsat":
                 notes.append(f"{cls} B4 inconclusive")
         stats["samples"].append(dict(function=f"{cls} shape/strides constructor", cols=insts[0], stride=insts[1], paths=len(ex.paths), basic_blocks=len(fn.blocks)))
+
+
+GETBUFFER = [
+    # class, param regex, ndim, itemsize, getters, shape/strides field indices of the Rust struct (or None)
+    ("EncodedSequence", r"PyRef<'_, EncodedSequence>, _2: \*mut Py_buffer", 1, 1, {r"EncodedSequenceData::len": "n"}, None),
+    ("StripedSequence", r"PyRefMut<'_, StripedSequence>, _2: \*mut Py_buffer", 2, 1,
+     {r"StripedSequenceData::rows": "mrows", r"StripedSequenceData::columns": "cols", r"StripedSequenceData::stride": "stride"}, (1, 2)),
+    ("ScoringMatrix", r"PyRefMut<'_, ScoringMatrix>, _2: \*mut Py_buffer", 2, 4,
+     {r"ScoringMatrixData::rows": "mrows", r"ScoringMatrixData::columns": "cols", r"ScoringMatrixData::stride": "stride"}, (1, 2)),
+    ("StripedScores", r"PyRefMut<'_, StripedScores>, _2: \*mut Py_buffer", 2, 4,
+     {r"DenseMatrix::<f32.*::rows": "mrows", r"DenseMatrix::<f32.*::columns": "cols", r"DenseMatrix::<f32.*::stride": "stride"}, (1, 2)),
+]
+
+
+def check_getbuffer(fns, findings, notes):
+    """__getbuffer__ bodies: the exported itemsize / ndim / readonly, the exported shape and
+    strides pointers (must be the fields filled by the constructor, not rewritten here from
+    a row count that includes look-ahead rows), and panic-freedom (indexing an empty matrix)."""
+    for cls, prx, ndim, size, getters, fields in GETBUFFER:
+        fn = mir.find_function(fns, r">::__getbuffer__\(", prx)
+        syms = {k: (False, 64) for k in ("n", "mrows", "cols", "stride", "wrap")}
+        syms["flags"] = (True, 32)
+        ex = Executor(fn, getters=getters, accessors={r"as Index<usize>>::index": "row_index"},
+                      errors={r"PyBufferError::new_err": "BufferError"}, symbols=syms)
+        start = mir.Path()
+        ex.bind_param(start, "_3", "flags")
+        ex._dfs(start, "bb0", 0, 64)
+        decls64 = ["n", "mrows", "cols", "stride", "wrap"]
+        base0 = ["(bvule mrows #x00000000ffffffff)", "(bvule wrap mrows)", "(bvule cols #x0000000000000040)", "(bvule stride #x0000000000000040)", "(bvule n #x3fffffffffffffff)"]
+        small = ["(bvule mrows #x0000000000000004)", "(bvule n #x0000000000000004)"]
+        extra_decl = "(declare-const flags (_ BitVec 32))"
+
+        for p in ex.paths:
+            conds = p.conds
+            if p.outcome[0] == "panic":
+                v, m, ok = query_with_small_first(decls64, base0 + conds, "true", small, extra=extra_decl)
+                if v == "sat":
+                    findings.append(Finding(cls, "V0", f"memoryview({cls}) panics (arithmetic overflow)", m, ok))
+                elif v != "unsat":
+                    notes.append(f"{cls} V0 inconclusive")
+                continue
+            ret = p.outcome[1]
+            if ret is None or ret.kind != "agg":
+                raise Unsupported(f"{cls}.__getbuffer__: unexpected return")
+            # element access with a bounds obligation (e.g. matrix()[0] of an empty matrix)
+            for ev in p.events:
+                if ev[0] == "row_index":
+                    idx = ev[1][-1]
+                    if idx.kind != "bv":
+                        raise Unsupported("row index is not an integer")
+                    v, m, ok = query_with_small_first(decls64, base0 + conds, f"(not (bvult {idx.term} mrows))", small, extra=extra_decl)
+                    if v == "sat":
+                        findings.append(Finding(cls, "V3", f"memoryview({cls}) indexes row {idx.term} of a matrix that may have no rows (panic)", m, ok))
+                    elif v != "unsat":
+                        notes.append(f"{cls} V3 inconclusive")
+            if ret.name != "Ok":
+                continue
+            stores = {}
+            self_stores = []
+            for ev in p.events:
+                if ev[0] == "store":
+                    base, field, val = ev[1]
+                    if base == "_2":
+                        stores[field] = val
+                    else:
+                        self_stores.append((base, field, val))
+            def const_of(v):
+                return v.term if v is not None and v.kind == "bv" else None
+            want = {3: bv(size, 64), 5: bv(ndim, 32), 4: bv(1, 32)}
+            names = {3: "itemsize", 5: "ndim", 4: "readonly"}
+            for fld, term in want.items():
+                got = const_of(stores.get(fld))
+                if got is None:
+                    findings.append(Finding(cls, "V1", f"memoryview({cls}) does not set {names[fld]}", {}, False))
+                    continue
+                v, m = solve(decls64, base0 + conds + [f"(not (= {got} {term}))"], extra=extra_decl)
+                if v == "sat":
+                    findings.append(Finding(cls, "V1", f"memoryview({cls}) exports a wrong {names[fld]}", m, True))
+                elif v != "unsat":
+                    notes.append(f"{cls} V1 inconclusive")
+            if fields is not None:
+                fields = STRUCT_FIELDS.get(cls, fields)
+                for fld, idx, nm in ((7, fields[0], "shape"), (8, fields[1], "strides")):
+                    v = stores.get(fld)
+                    tag = v.tag if v is not None and v.kind == "opaque" else ""
+                    if not re.search(r"\)\.%d: \[isize; 2\]" % idx, tag):
+                        findings.append(Finding(cls, "V2", f"memoryview({cls}) exports a {nm} pointer that is not the field filled by the constructor", {}, False))
+                # the shape / strides fields must not be rewritten from sizes that include look-ahead rows
+                for base, field, val in self_stores:
+                    if field not in fields or val.kind != "tuple":
+                        continue
+                    if field == fields[0]:
+                        s0, s1 = val.items[0].term, val.items[1].term
+                        neg = f"(not (or (and (= {s0} cols) (= {s1} (bvsub mrows wrap))) (and (= {s1} cols) (= {s0} (bvsub mrows wrap)))))"
+                        v, m, ok = query_with_small_first(decls64, base0 + conds + ["(bvuge mrows #x0000000000000001)"], neg, small, extra=extra_decl)
+                        if v == "sat":
+                            findings.append(Finding(cls, "V2", f"memoryview({cls}) rewrites its shape from a row count that includes look-ahead rows", m, ok))
+                        elif v != "unsat":
+                            notes.append(f"{cls} V2 inconclusive")
+        stats["samples"].append(dict(function=f"{cls}.__getbuffer__", paths=len(ex.paths), basic_blocks=len(fn.blocks)))
+
+
+def check_helpers(fns, findings, notes):
+    """`*Data::as_ptr` helpers used by __getbuffer__: no indexing of a possibly empty matrix."""
+    for cls, prx in (("StripedSequence", r">::as_ptr\(_1: &StripedSequenceData\)"),
+                     ("ScoringMatrix", r">::as_ptr\(_1: &ScoringMatrixData\)")):
+        fn = mir.find_function(fns, prx, None)
+        ex = Executor(fn, getters={r"DenseMatrix::<.*::rows": "mrows"}, accessors={r"as Index<usize>>::index": "row_index"},
+                      errors={}, symbols={"mrows": (False, 64)})
+        ex._dfs(mir.Path(), "bb0", 0, 64)
+        for p in ex.paths:
+            for ev in p.events:
+                if ev[0] == "row_index":
+                    idx = ev[1][-1]
+                    v, m = solve(["mrows"], p.conds + ["(bvule mrows #x0000000000000004)", f"(not (bvult {idx.term} mrows))"])
+                    if v == "sat":
+                        findings.append(Finding(cls, "V3", f"memoryview({cls}) indexes a row of a matrix that may have no rows (panic)", dict(m, rows=0), True))
+                    elif v != "unsat":
+                        notes.append(f"{cls} V3 inconclusive")
+        stats["samples"].append(dict(function=f"{cls}Data::as_ptr", paths=len(ex.paths)))
 
 
 # -- replay through CPython ------------------------------------------------------------------
@@ -361,6 +489,34 @@ if q in ("G1", "G2", "G3"):
         print("not reproduced"); sys.exit(0)
     except BaseException as e:
         print("REPRODUCED: %s: %s" % (type(e).__name__, str(e)[:100])); sys.exit(101)
+if q in ("V2", "V3", "V0", "V1"):
+    try:
+        if cls == "StripedSequence" and q == "V3":
+            mv = memoryview(lightmotif.stripe("")); _ = mv.shape
+        elif cls == "StripedSequence":
+            seq = lightmotif.stripe("ACGT" * 10)
+            before = memoryview(seq).shape
+            pssm = lightmotif.create(["ACG", "ACT"]).counts.normalize(0.1).log_odds()
+            pssm.calculate(seq)
+            after = memoryview(seq).shape
+            rows = (40 + 31) // 32
+            if tuple(after) != (32, rows) or tuple(before) != (32, rows):
+                print("REPRODUCED: memoryview shape %s -> %s after scoring, logical shape (32, %d)" % (before, after, rows)); sys.exit(101)
+        elif cls == "StripedScores":
+            pssm = lightmotif.create(["ACG", "ACT"]).counts.normalize(0.1).log_odds()
+            seq = lightmotif.stripe("A" * max(0, min(m.get("mrows", 0), 2)))
+            scores = pssm.calculate(seq)
+            mv = memoryview(scores)
+            _ = mv.shape
+        elif cls == "ScoringMatrix":
+            mv = memoryview(make(cls, 3)); _ = mv.shape
+        else:
+            mv = memoryview(make(cls, 3)); _ = mv.shape
+        print("not reproduced"); sys.exit(0)
+    except BaseException as e:
+        if isinstance(e, SystemExit):
+            raise
+        print("REPRODUCED: %s: %s" % (type(e).__name__, str(e)[:100])); sys.exit(101)
 if q.startswith("B"):
     rows = m.get("rows", 1)
     if cls == "ScoringMatrix":
@@ -393,7 +549,7 @@ def build_pymod():
     so = os.path.join(tdir, "debug", "liblightmotif_py.so")
     if rc != 0 or not os.path.exists(so):
         return None
-    pkg = os.path.join(WORK, "pymod", "lightmotif")
+    pkg = os.path.join(MIRDIR, "pymod", "lightmotif")
     os.makedirs(pkg, exist_ok=True)
     shutil.copy(so, os.path.join(pkg, "lib.so"))
     shutil.copy(os.path.join(REPO, "lightmotif-py", "lightmotif", "__init__.py"), os.path.join(pkg, "__init__.py"))
@@ -432,6 +588,8 @@ def main(tier, seed):
         check_getitem(fns, findings, notes)
         check_len(fns, findings, notes)
         check_layout(fns, findings, notes)
+        check_getbuffer(fns, findings, notes)
+        check_helpers(fns, findings, notes)
     except Unsupported as e:
         inconclusive = f"encoder: {e}"
         dump_s = 0
@@ -482,8 +640,9 @@ def main(tier, seed):
         wall_s=round(wall, 1),
         violations=len(viol),
     )
-    os.makedirs(os.path.join(VERIF, "evidence"), exist_ok=True)
-    json.dump(ev, open(os.path.join(VERIF, "evidence", "C18.json"), "w"), indent=1)
+    evdir = os.path.join(VERIF, "evidence") if not ALT else os.path.join(MIRDIR, "evidence")
+    os.makedirs(evdir, exist_ok=True)
+    json.dump(ev, open(os.path.join(evdir, "C18.json"), "w"), indent=1)
     for ln in known_lines:
         print(ln)
     for f, rpath, out in viol:
